@@ -107,6 +107,8 @@ class PegRef(Ref):
         self.active = []          # (rule, pos, stack depth, atomicity) currently being evaluated: re-entry = left recursion
         self.attempts = log       # optional list collecting (rule, pos, ok, reportable, negated) for C08
         self.fuel = 20000
+        # the failure report prescribed by the statement of C08: furthest position and the rules reported there
+        self.rep_pos = 0; self.rep_P = []; self.rep_N = []
 
     # ---- implicit skipping
     def skip(self, st):
@@ -160,6 +162,8 @@ class PegRef(Ref):
         reportable = ty not in ("silent", "silent_atomic") and st.at != 0
         idx = len(st.queue)
         if emit: st.queue.append(["S", 0, st.pos])
+        # what had been reported at this very position when the rule was entered (None: the furthest report is elsewhere)
+        entry = (len(self.rep_P), len(self.rep_N)) if start == self.rep_pos else None
         if ty in ("atomic", "silent_atomic"): st.at = 0
         sv_stack = [list(x) for x in st.stack]
         okk = self.eval(e, st)
@@ -173,7 +177,23 @@ class PegRef(Ref):
         if not okk: st.stack = sv_stack
         if self.attempts is not None and ty not in ("silent", "silent_atomic"):
             self.attempts.append((rname, start, okk, reportable, st.la))
+        if reportable and ((not okk and st.la != 1) or (okk and st.la == 1)):
+            self.report(rname, start, entry, st.la == 1)
         return okk
+
+    def report(self, rname, start, entry, negated):
+        """C08: the report names the furthest position at which a reportable rule failed (or matched under negation); a
+        rule is reported in place of the rules tried inside it at the same position unless exactly one such rule was tried"""
+        if start < self.rep_pos: return
+        if start > self.rep_pos:
+            self.rep_pos = start; self.rep_P = []; self.rep_N = []
+            inside = 0
+        else:
+            eP, eN = entry if entry is not None else (0, 0)
+            inside = (len(self.rep_P) - eP) + (len(self.rep_N) - eN)
+            if inside == 1: return
+            del self.rep_P[eP:]; del self.rep_N[eN:]
+        (self.rep_N if negated else self.rep_P).append(rname)
 
     def builtin(self, name, st):
         if name == "ANY": return self.run(("skip", 1), st)
